@@ -94,12 +94,20 @@ def r02_1(ctx):
     ctx.ob('R02.1', 'MapResult._set:stores-the-chunk-result', val == [res], st, None, 'self._value[...] = %s' % res)
     ak = m.func('pool:MapResult._ack')
     A = ak.positional_params()[1]
-    vals = {ast.unparse(t): v for (dn, t, v) in q.assigns(ak, ('start', 'stop')) if v is not None}
-    ok = 'start' in vals and 'stop' in vals and poly(vals['start']) == _p('%s * self._chunksize' % A)
-    sv = vals.get('stop')
-    ok = ok and isinstance(sv, ast.Call) and ak.callee(sv) == 'min' and len(sv.args) == 2 and \
-        {str(sorted(poly(a).items())) for a in sv.args} == {str(sorted(_p('%s * self._chunksize + self._chunksize' % A).items())),
-                                                            str(sorted(_p('self._length').items()))}
+    # the loop that marks the items accepted runs over range(lo, hi); lo and hi are read through the locals that
+    # name them (start / stop on the reference tree)
+    ok = False
+    for lp in walk_own(ak.node):
+        if isinstance(lp, ast.For) and isinstance(lp.iter, ast.Call) and ak.callee(lp.iter) == 'range' and \
+                len(lp.iter.args) == 2 and any(isinstance(x, ast.Attribute) and x.attr == '_accepted' for x in ast.walk(lp)):
+            lo = ast.parse(q.expand(ak, lp.iter.args[0]), mode='eval').body
+            sv = ast.parse(q.expand(ak, lp.iter.args[1]), mode='eval').body
+            ok = poly(lo) == _p('%s * self._chunksize' % A)
+            ok = ok and isinstance(sv, ast.Call) and isinstance(sv.func, ast.Name) and sv.func.id == 'min' and \
+                len(sv.args) == 2 and \
+                {str(sorted(poly(a).items())) for a in sv.args} == {
+                    str(sorted(_p('%s * self._chunksize + self._chunksize' % A).items())),
+                    str(sorted(_p('self._length').items()))}
     ctx.ob('R02.1', 'MapResult._ack:marks-range-[i*c,min((i+1)*c,length))', ok, ak, None,
            'start = i*c; stop = min((i+1)*c, length)')
     iv = init
